@@ -1063,6 +1063,10 @@ M('C10', "AKLTChain logs with the non-existent self.name (original defect)", 'te
   "self.logger.info('%s: set conserve to %s', self.__class__.__name__, conserve)",
   "self.logger.info('%s: set conserve to %s', self.name, conserve)", 'ATTR-defined')
 
+M('C18', 'TimeDependentCorrelation.resume_run drops the results (original defect)',
+  'tenpy/simulations/time_evolution.py', "        return super().resume_run()\n", "        super().resume_run()\n",
+  'RESUME-return')
+
 # ---------------------------------------------------------------- C16 / C19
 M('C16', 'GMRES restart: relative residual norm used for normalisation (round-3 seed b)', KRY,
   """        self.total_error.append([npc.norm(self.rs[-1]) / self.b_norm])
